@@ -149,9 +149,8 @@ Definition ttl_index (n : coll) (f : string) (e : Z) : Prop :=
 
 Definition has_ttl (n : coll) : Prop := exists f e, ttl_index n f e.
 
-(* the field of a TTL index is a field path, not an operator name; MongoDB
-   rejects `$`-prefixed index keys, lungo does not (see expire_dollar_field_*
-   in Properties/C19.v for what Expire does then) *)
+(* the field of a TTL index is a field path, not an operator name (holds under
+   the collection invariant: coll_inv_ttl_fields_ok below) *)
 Definition ttl_fields_ok (n : coll) : Prop := forall f e, ttl_index n f e -> is_op f = false.
 
 Lemma in_opt_list {A} (l : list (option A)) x : In x (opt_list l) <-> In (Some x) l.
@@ -219,6 +218,63 @@ Proof.
   symmetry. apply Z.ltb_lt. unfold len. simpl Datatypes.length. lia.
 Qed.
 
+(* mongokit.CreateIndex rejects a key path with a segment that starts with
+   `$` (as MongoDB does), so under the collection invariant the field of a
+   TTL index is never an operator name: the conditions Expire builds are
+   field conditions *)
+Fixpoint ends_dollar (s : string) : bool :=
+  match s with
+  | EmptyString => false
+  | String c EmptyString => Ascii.eqb c "$"%char
+  | String _ t => ends_dollar t
+  end.
+
+Definition starts_dollar (s : string) : bool :=
+  match s with String "$" _ => true | _ => false end.
+
+Lemma rev_app_starts_dollar cur : forall acc,
+  ends_dollar cur = true -> starts_dollar (string_rev_app cur acc) = true.
+Proof.
+  induction cur as [|c t IH]; intros acc H; [discriminate|].
+  cbn [string_rev_app]. destruct t as [|c2 t2].
+  - cbn [ends_dollar] in H. apply Ascii.eqb_eq in H. subst c. reflexivity.
+  - apply IH. exact H.
+Qed.
+
+Lemma split_go_head_dollar s : forall cur,
+  ends_dollar cur = true ->
+  exists seg rest, split_go s cur = seg :: rest /\ starts_dollar seg = true.
+Proof.
+  induction s as [|c t IH]; intros cur H; cbn [split_go].
+  - exists (string_rev cur), []. split; [reflexivity|]. apply rev_app_starts_dollar. exact H.
+  - destruct (Ascii.eqb c "."%char).
+    + exists (string_rev cur), (split_go t EmptyString). split; [reflexivity|].
+      apply rev_app_starts_dollar. exact H.
+    + apply IH. destruct cur; [discriminate|exact H].
+Qed.
+
+Lemma is_op_dollar_segment f : is_op f = true -> dollar_segment f = true.
+Proof.
+  destruct f as [|c t]; [discriminate|]. cbn [is_op]. intro H. apply Ascii.eqb_eq in H. subst c.
+  unfold dollar_segment, split_path. cbn [split_go Ascii.eqb Bool.eqb].
+  destruct (split_go_head_dollar t (String "$" EmptyString) eq_refl) as [seg [rest [E Hs]]].
+  rewrite E. cbn [existsb]. fold (starts_dollar seg). rewrite Hs. reflexivity.
+Qed.
+
+Theorem coll_inv_ttl_fields_ok n : coll_inv Match n -> ttl_fields_ok n.
+Proof.
+  intros [_ [_ Hall]] f e [nm [ix [v [rest [Hin [Hk _]]]]]].
+  rewrite Forall_forall in Hall. destruct (Hall _ Hin) as [_ [_ Hwf]]. simpl in Hwf.
+  unfold ix_wf, new_index in Hwf. rewrite Hk in Hwf.
+  cbn [columns] in Hwf. destruct (direction_of v) as [dir|]; [|discriminate].
+  destruct ((dir =? 1) || (dir =? -1)); [|discriminate].
+  destruct (columns rest) as [cols| | | |]; try discriminate. cbn [bind] in Hwf.
+  cbn [existsb fst] in Hwf.
+  destruct (dollar_segment f) eqn:D; [discriminate|].
+  destruct (is_op f) eqn:O; [|reflexivity].
+  rewrite (is_op_dollar_segment f O) in D. discriminate.
+Qed.
+
 (* ================================================================== *)
 (* 3. "expired"                                                        *)
 
@@ -260,6 +316,10 @@ Proof.
   intros Ht Hok. unfold expire_query. rewrite expire_conds_specs.
   apply ttl_query_bool; [apply (has_ttl_specs now); exact Ht | apply ttl_fields_ok_specs; exact Hok].
 Qed.
+
+Corollary expire_query_decides_inv now n d :
+  coll_inv Match n -> has_ttl n -> Match d (expire_query now n) = Ok (expiredb now n d).
+Proof. intros Hinv Ht. apply expire_query_decides; [exact Ht|apply coll_inv_ttl_fields_ok; exact Hinv]. Qed.
 
 Corollary expire_filter_total now n l :
   has_ttl n -> ttl_fields_ok n -> filter_total Match l (expire_query now n).
@@ -343,12 +403,12 @@ Qed.
    (in collection order); index definitions are kept and the invariant
    (every index holds exactly the remaining documents) is preserved *)
 Theorem expire_removes_exactly now n :
-  coll_inv Match n -> ttl_fields_ok n -> has_ttl n ->
+  coll_inv Match n -> has_ttl n ->
   exists n', coll_delete Match n (expire_query now n) None 0 0
              = (n', inl (mkResult (removed now n) [] None [])) /\
              expire_ns now n n'.
 Proof.
-  intros Hinv Hok Ht. pose proof Hinv as [Hnd _].
+  intros Hinv Ht. pose proof (coll_inv_ttl_fields_ok n Hinv) as Hok. pose proof Hinv as [Hnd _].
   pose proof (find_expired now n Ht Hok) as Hf.
   assert (Hndl : NoDup (c_docs n)) by (eapply NoDup_map_inv; exact Hnd).
   destruct (remove_docs_good Match (docs_of n) (c_indexes n) (removed now n)
@@ -372,15 +432,15 @@ Qed.
 
 (* the same in membership form: a document survives iff it is not expired *)
 Corollary expire_keeps_iff now n n' r :
-  coll_inv Match n -> ttl_fields_ok n -> has_ttl n ->
+  coll_inv Match n -> has_ttl n ->
   coll_delete Match n (expire_query now n) None 0 0 = (n', inl r) ->
   (forall sd, In sd (c_docs n') <-> In sd (c_docs n) /\ ~ expired now n (snd sd)) /\
   (forall sd, In sd (r_matched r) <-> In sd (c_docs n) /\ expired now n (snd sd)) /\
   map snd (c_docs n') = map snd (remaining now n) /\
   r_matched r = removed now n.
 Proof.
-  intros Hinv Hok Ht H.
-  destruct (expire_removes_exactly now n Hinv Hok Ht) as [n1 [H1 [Hd _]]].
+  intros Hinv Ht H.
+  destruct (expire_removes_exactly now n Hinv Ht) as [n1 [H1 [Hd _]]].
   rewrite H1 in H. injection H as <- <-. simpl. rewrite Hd.
   split; [|split; [|split; reflexivity]]; intro sd.
   - unfold remaining. rewrite filter_In, negb_true_iff, expiredb_false_iff. reflexivity.
@@ -435,7 +495,7 @@ Qed.
    document, in the order of removal, and nothing else; identities and clock
    advance by the number of removed documents *)
 Theorem expire_logs_deletes now w h :
-  coll_inv Match (w_ns w) -> ttl_fields_ok (w_ns w) -> has_ttl (w_ns w) ->
+  coll_inv Match (w_ns w) -> has_ttl (w_ns w) ->
   let n := w_ns w in
   let m := len (removed now n) in
   exists n',
@@ -448,7 +508,7 @@ Theorem expire_logs_deletes now w h :
        inl (mkT (removed now n) [] None None)) /\
     expire_ns now n n'.
 Proof.
-  intros Hinv Hok Ht n m. destruct (expire_removes_exactly now n Hinv Hok Ht) as [n' [Hd Hns]].
+  intros Hinv Ht n m. destruct (expire_removes_exactly now n Hinv Ht) as [n' [Hd Hns]].
   exists n'. split; [|exact Hns]. unfold t_delete. fold n. rewrite Hd.
   cbn [r_matched]. rewrite append_all_delete. reflexivity.
 Qed.
@@ -642,7 +702,7 @@ Qed.
 Lemma expire_loop_spec now : forall l cur g del,
   NoDup (map fst l) ->
   (forall h n, In (h, n) l -> h <> oplog_handle -> ns_get (cat_ns cur) h = Some n) ->
-  (forall h n, In (h, n) l -> coll_inv Match n /\ ttl_fields_ok n) ->
+  (forall h n, In (h, n) l -> coll_inv Match n) ->
   (forall n, In (oplog_handle, n) l -> ~ has_ttl n) ->
   exists cur',
     expire_loop Match cur g l now del =
@@ -661,14 +721,14 @@ Proof.
     rewrite !Z.add_0_r, app_nil_r. destruct g. simpl.
     repeat split; auto. intros ? ? [].
   - inversion Hnd as [|? ? Hni Hnd']; subst.
-    destruct (Hinv h n (or_introl eq_refl)) as [Hcinv Hfok].
+    pose proof (Hinv h n (or_introl eq_refl)) as Hcinv.
     assert (HgetT : forall cur2, (forall k, k <> h -> k <> oplog_handle ->
                        ns_get (cat_ns cur2) k = ns_get (cat_ns cur) k) ->
               forall h2 n2, In (h2, n2) t -> h2 <> oplog_handle -> ns_get (cat_ns cur2) h2 = Some n2).
     { intros cur2 Hsame h2 n2 Hin Hno. rewrite Hsame; auto.
       - apply Hget; auto. right. exact Hin.
       - intros ->. apply Hni. change h with (fst (h, n2)). apply in_map. exact Hin. }
-    assert (HinvT : forall h2 n2, In (h2, n2) t -> coll_inv Match n2 /\ ttl_fields_ok n2)
+    assert (HinvT : forall h2 n2, In (h2, n2) t -> coll_inv Match n2)
       by (intros; apply (Hinv h2); right; assumption).
     assert (HopT : forall n2, In (oplog_handle, n2) t -> ~ has_ttl n2)
       by (intros; apply Hop; right; assumption).
@@ -698,7 +758,7 @@ Proof.
       assert (Hopen : open_w cur g h = mkW n (oplog_of cur) (cat_clock cur) g).
       { unfold open_w, ns_or_new. rewrite (Hget h n (or_introl eq_refl) Hho). reflexivity. }
       rewrite (expire_loop_step_ttl cur g h n t now del E), Hopen.
-      destruct (expire_logs_deletes now (mkW n (oplog_of cur) (cat_clock cur) g) h Hcinv Hfok Ht)
+      destruct (expire_logs_deletes now (mkW n (oplog_of cur) (cat_clock cur) g) h Hcinv Ht)
         as [n' [Hd Hns']].
       cbn [w_ns w_oplog w_clock w_gen] in Hd. rewrite Hd. cbn [t_matched w_gen].
       set (m := len (removed now n)) in *.
@@ -730,10 +790,8 @@ Qed.
 (* the pass as a whole *)
 
 (* hypotheses on the catalog (invariants of every reachable state) *)
-Definition cat_inv (c : catalog) : Prop :=
+Definition cat_colls_ok (c : catalog) : Prop :=
   forall h n, ns_get (cat_ns c) h = Some n -> coll_inv Match n.
-Definition cat_fields_ok (c : catalog) : Prop :=
-  forall h n, ns_get (cat_ns c) h = Some n -> ttl_fields_ok n.
 (* local.oplog has no (TTL) index: index creation on local.* is refused *)
 Definition oplog_no_ttl (c : catalog) : Prop :=
   forall o, ns_get (cat_ns c) oplog_handle = Some o -> ~ has_ttl o.
@@ -779,17 +837,17 @@ Proof.
 Qed.
 
 Lemma expire_loop_catalog now c g :
-  cat_wf c -> cat_inv c -> cat_fields_ok c -> oplog_no_ttl c ->
+  cat_wf c -> cat_colls_ok c -> oplog_no_ttl c ->
   exists cur',
     expire_loop Match c g (cat_ns c) now 0 =
       inl (cur', mkGen (g_did g + len (expired_all now (cat_ns c))) (g_oid g),
            0 + len (expired_all now (cat_ns c))) /\
     expire_post now c g cur' (mkGen (g_did g + len (expired_all now (cat_ns c))) (g_oid g)).
 Proof.
-  intros Hwf Hinv Hok Hop.
+  intros Hwf Hinv Hop.
   destruct (expire_loop_spec now (cat_ns c) c g 0 Hwf) as [cur' [Hl [Hc [Ho [Hoi [Hns Hoth]]]]]].
   - intros h n Hin _. apply in_ns_get; assumption.
-  - intros h n Hin. pose proof (in_ns_get _ _ _ Hwf Hin) as Hg. split; [exact (Hinv h n Hg)|exact (Hok h n Hg)].
+  - intros h n Hin. exact (Hinv h n (in_ns_get _ _ _ Hwf Hin)).
   - intros n Hin. apply Hop. apply in_ns_get; assumption.
   - exists cur'. split; [exact Hl|]. unfold expire_post. cbv zeta.
     split; [reflexivity|]. split; [exact Hc|]. split; [exact Ho|]. split; [exact Hoi|]. split.
@@ -810,11 +868,11 @@ Qed.
    - the clock and the identity generator advanced by the number of removed
      documents, ObjectID generation is untouched. *)
 Theorem txn_expire_exact now c g :
-  cat_wf c -> cat_inv c -> cat_fields_ok c -> oplog_no_ttl c ->
+  cat_wf c -> cat_colls_ok c -> oplog_no_ttl c ->
   exists c' g', txn_expire Match c g now = (c', g', inl tt) /\ expire_post now c g c' g'.
 Proof.
-  intros Hwf Hinv Hok Hop.
-  destruct (expire_loop_catalog now c g Hwf Hinv Hok Hop) as [cur' [Hl Hpost]].
+  intros Hwf Hinv Hop.
+  destruct (expire_loop_catalog now c g Hwf Hinv Hop) as [cur' [Hl Hpost]].
   unfold txn_expire. rewrite Hl.
   destruct (0 <? 0 + len (expired_all now (cat_ns c))) eqn:Hd.
   - exists cur', (mkGen (g_did g + len (expired_all now (cat_ns c))) (g_oid g)). split; [reflexivity|exact Hpost].
@@ -830,7 +888,7 @@ Qed.
 
 (* documents after the pass, in membership form *)
 Corollary txn_expire_docs now c g c' g' r :
-  cat_wf c -> cat_inv c -> cat_fields_ok c -> oplog_no_ttl c ->
+  cat_wf c -> cat_colls_ok c -> oplog_no_ttl c ->
   txn_expire Match c g now = (c', g', r) ->
   r = inl tt /\
   forall h n, h <> oplog_handle -> ns_get (cat_ns c) h = Some n ->
@@ -838,8 +896,8 @@ Corollary txn_expire_docs now c g c' g' r :
       map snd (c_docs n') = map snd (remaining now n) /\
       forall sd, In sd (c_docs n') <-> In sd (c_docs n) /\ ~ expired now n (snd sd).
 Proof.
-  intros Hwf Hinv Hok Hop H.
-  destruct (txn_expire_exact now c g Hwf Hinv Hok Hop) as [c1 [g1 [H1 Hpost]]].
+  intros Hwf Hinv Hop H.
+  destruct (txn_expire_exact now c g Hwf Hinv Hop) as [c1 [g1 [H1 Hpost]]].
   rewrite H1 in H. injection H as <- <- <-. split; [reflexivity|].
   intros h n Hno Hg. destruct Hpost as [_ [_ [_ [_ [Hns _]]]]].
   destruct (Hns h n Hno Hg) as [n' [Hg' [Hd _]]]. exists n'. split; [exact Hg'|].
@@ -850,14 +908,14 @@ Qed.
 (* a namespace none of whose documents is expired is untouched: the very same
    collection (documents, index definitions, index entries) *)
 Corollary unexpired_ns_untouched now c g c' g' r :
-  cat_wf c -> cat_inv c -> cat_fields_ok c -> oplog_no_ttl c ->
+  cat_wf c -> cat_colls_ok c -> oplog_no_ttl c ->
   txn_expire Match c g now = (c', g', r) ->
   forall h n, h <> oplog_handle -> ns_get (cat_ns c) h = Some n ->
     (forall sd, In sd (c_docs n) -> ~ expired now n (snd sd)) ->
     ns_get (cat_ns c') h = Some n.
 Proof.
-  intros Hwf Hinv Hok Hop H h n Hno Hg Hnone.
-  destruct (txn_expire_exact now c g Hwf Hinv Hok Hop) as [c1 [g1 [H1 Hpost]]].
+  intros Hwf Hinv Hop H h n Hno Hg Hnone.
+  destruct (txn_expire_exact now c g Hwf Hinv Hop) as [c1 [g1 [H1 Hpost]]].
   rewrite H1 in H. injection H as <- <- <-.
   destruct Hpost as [_ [_ [_ [_ [Hns _]]]]].
   destruct (Hns h n Hno Hg) as [n' [Hg' [_ [_ [_ Hsame]]]]].
@@ -866,26 +924,26 @@ Qed.
 
 (* ... in particular every collection without a TTL index *)
 Corollary non_ttl_untouched now c g c' g' r :
-  cat_wf c -> cat_inv c -> cat_fields_ok c -> oplog_no_ttl c ->
+  cat_wf c -> cat_colls_ok c -> oplog_no_ttl c ->
   txn_expire Match c g now = (c', g', r) ->
   forall h n, h <> oplog_handle -> ns_get (cat_ns c) h = Some n -> ~ has_ttl n ->
     ns_get (cat_ns c') h = Some n.
 Proof.
-  intros Hwf Hinv Hok Hop H h n Hno Hg Hnt.
-  apply (unexpired_ns_untouched now c g c' g' r Hwf Hinv Hok Hop H h n Hno Hg).
+  intros Hwf Hinv Hop H h n Hno Hg Hnt.
+  apply (unexpired_ns_untouched now c g c' g' r Hwf Hinv Hop H h n Hno Hg).
   intros sd _ [f [e [Hi _]]]. apply Hnt. exists f, e. exact Hi.
 Qed.
 
 (* a pass that removes nothing changes nothing: the catalog (and the
    generators) are returned as they were — the transaction is not dirty *)
 Theorem expire_noop_unchanged now c g :
-  cat_wf c -> cat_inv c -> cat_fields_ok c -> oplog_no_ttl c ->
+  cat_wf c -> cat_colls_ok c -> oplog_no_ttl c ->
   (forall h n, ns_get (cat_ns c) h = Some n ->
      forall sd, In sd (c_docs n) -> ~ expired now n (snd sd)) ->
   txn_expire Match c g now = (c, g, inl tt).
 Proof.
-  intros Hwf Hinv Hok Hop Hnone.
-  destruct (expire_loop_catalog now c g Hwf Hinv Hok Hop) as [cur' [Hl _]].
+  intros Hwf Hinv Hop Hnone.
+  destruct (expire_loop_catalog now c g Hwf Hinv Hop) as [cur' [Hl _]].
   assert (Hnil : expired_all now (cat_ns c) = []).
   { apply expired_all_none. intros h n Hin. apply removed_none.
     apply (Hnone h). apply in_ns_get; assumption. }
@@ -905,12 +963,12 @@ Proof.
 Qed.
 
 Theorem expire_changed_removed now c g c' g' r :
-  cat_wf c -> cat_inv c -> cat_fields_ok c -> oplog_no_ttl c ->
+  cat_wf c -> cat_colls_ok c -> oplog_no_ttl c ->
   txn_expire Match c g now = (c', g', r) -> c' <> c ->
   exists h n sd, ns_get (cat_ns c) h = Some n /\ In sd (c_docs n) /\ expired now n (snd sd).
 Proof.
-  intros Hwf Hinv Hok Hop H Hne.
-  destruct (expire_loop_catalog now c g Hwf Hinv Hok Hop) as [cur' [Hl _]].
+  intros Hwf Hinv Hop H Hne.
+  destruct (expire_loop_catalog now c g Hwf Hinv Hop) as [cur' [Hl _]].
   unfold txn_expire in H. rewrite Hl in H.
   destruct (expired_all now (cat_ns c)) as [|[h sd] rest] eqn:E.
   - unfold len in H. simpl in H. injection H as <- _ _. congruence.
